@@ -240,6 +240,9 @@ def generate(seed, run, tier):
                 events.append({"op": "iter_next", "it": it, "n": wrng.randint(1, 3), "c": it})
     for it in sorted(live):
         events.append({"op": "iter_drain", "it": it, "c": it})
+    if crng.random() < 0.02 and events:
+        pos = srng.randrange(len(events) + 1)
+        events.insert(pos, {"op": "flood", "n": crng.choice([4200, 8300]), "c": "R9"})
     return {"config": config, "events": events}
 
 
@@ -650,6 +653,20 @@ class Run(object):
             stats.event("%s|%s|%s" % (ev.get("c"), op, r(ev["url"])))
             if op == "other_set":
                 self.sweep("other_set")
+        elif op == "flood":
+            # thousands of distinct URLs (more than a bounded cache holds)
+            n = min(int(ev.get("n", 0)), 20000)
+            root = prefix_lookup(self.model, ())
+            for i in range(n):
+                url = "gopher://flood%d.invalid/x" % i
+                got = self.trie.match(url)
+                stats.checks += 1
+                # nothing is stored under scheme gopher: only the empty LRU can match
+                if not same(got, root) and not (self.cfg["cls"] in ("NormalizedLRUTrie", "FingerprintedLRUTrie")):
+                    self.fail("match", op, r(got), r(root), {"url": url})
+            stats.probe("flood_of_distinct_lookups")
+            stats.event("%s|flood|%d" % (ev.get("c"), n))
+            self.sweep("flood", force=True)
         elif op == "match":
             url = ev["url"]
             key = self.keys.get(url)
